@@ -43,6 +43,10 @@ Definition new_epoch (F0 : Z) (s : sstate) (npre nsamp : Z) (ts : tstate) : ssta
   let C := Z.max (s_acc s) (s_H s + npre) in
   mkss npre nsamp ts (s_G s) (s_H s) C C [] (s_all s).
 
+(* an accepted ConfigurePulseLengths that asks for the lengths already in force changes nothing either *)
+Definition accepted_len (F0 : Z) (s : sstate) (nsamp npre : Z) : sstate :=
+  if (nsamp =? s_nsamp s) && (npre =? s_npre s) then s else new_epoch F0 s npre nsamp (s_ts s).
+
 (* bookkeeping after a block: history bound and decidable end move with the data *)
 Definition after_block_ss (F0 : Z) (s : sstate) (sg : segment) (tr : list Z) : sstate :=
   let G' := s_G s ++ seg_data sg in
@@ -53,7 +57,7 @@ Definition block_info (F0 : Z) (s : sstate) (sg : segment) (recs : list record) 
   mkbi (s_npre s) (s_nsamp s) (s_ts s) F0 (s_G s ++ seg_data sg) sg (s_C s) (s_acc s) (s_epoch s) (s_all s) recs.
 
 (* None: the history is not one this property speaks about — the source was not contiguous, an operation and
-   its observation do not fit together, a trigger reconfiguration failed, or the process died (OPanic) *)
+   its observation do not fit together, or the process died (OPanic) *)
 Fixpoint annotate (F0 : Z) (s : sstate) (h : list (op * obs)) : option (list binfo) :=
   match h with
   | [] => Some []
@@ -65,8 +69,10 @@ Fixpoint annotate (F0 : Z) (s : sstate) (h : list (op * obs)) : option (list bin
         end
       else None
   | (CfgTrig ts, OCfg false) :: rest => annotate F0 (new_epoch F0 s (s_npre s) (s_nsamp s) ts) rest
-  | (CfgLen nsamp npre, OCfg false) :: rest => annotate F0 (new_epoch F0 s npre nsamp (s_ts s)) rest
-  | (CfgLen _ _, OCfg true) :: rest => annotate F0 (new_epoch F0 s (s_npre s) (s_nsamp s) (s_ts s)) rest
+  | (CfgLen nsamp npre, OCfg false) :: rest => annotate F0 (accepted_len F0 s nsamp npre) rest
+  (* a REFUSED request is no reconfiguration: nothing may change, the epoch goes on *)
+  | (CfgTrig _, OCfg true) :: rest => annotate F0 s rest
+  | (CfgLen _ _, OCfg true) :: rest => annotate F0 s rest
   | _ => None
   end.
 
@@ -129,6 +135,7 @@ Fixpoint annotateG (npre nsamp : Z) (G : list Z) (h : list (op * obs)) : option 
   | (CfgTrig ts, OCfg false) :: rest => annotateG npre nsamp G rest
   | (CfgLen nsamp' npre', OCfg false) :: rest => annotateG npre' nsamp' G rest
   | (CfgLen _ _, OCfg true) :: rest => annotateG npre nsamp G rest
+  | (CfgTrig _, OCfg true) :: rest => annotateG npre nsamp G rest
   | _ => None
   end.
 
@@ -173,7 +180,9 @@ Fixpoint contiguous (next : Z) (ops : list op) : Prop :=
 Definition op_ok (period : Z) (o : op) : Prop :=
   match o with
   | Block sg => seg_period sg = period
-  | CfgTrig ts => ts_emulti ts = false           (* edge-multi is C08 *)
+  (* edge-multi triggering is C08: a request that switches it on is covered only when it is one that NO record
+     length can support (nmonotone beyond every nsamp - npre), i.e. when it is refused *)
+  | CfgTrig ts => ts_emulti ts = true -> max_nsamp < ts_emt_nmono ts
   | CfgLen nsamp _ => nsamp <= max_nsamp         (* no int32 wrap in EMTState *)
   end.
 
